@@ -18,6 +18,9 @@ LEVEL = "fault_enumeration"
 NAME = "crash"
 
 
+EPILOGUE = -3  # trace op id of events after the session on the target has ended
+
+
 class UserError(Exception):
     """Application exception raised by 'user code' inside the with block."""
 
@@ -59,8 +62,8 @@ def generate(seed, tier, opts):
     slices = int(opts.get("slices", 1))
     wseed, sl = divmod(int(seed), slices)
     d = Decider(wseed, "crash-workload")
-    workload = d.weighted("kind", [("solve", 5), ("edit", 4), ("build", 2)])
-    real = d.chance("real", float(opts.get("real_frac", 0.0)))
+    workload = d.weighted("kind", [("solve", 5), ("edit", 4), ("build", 2), ("deepcopy", 1), ("product-inplace", 1), ("product-new", 1)])
+    real = d.chance("real", float(opts.get("real_frac", 0.0))) and workload in ("solve", "edit", "build")
     th, op = cards.gen_cards(d, real=real, max_targets=2 if real else 3)
     nx = len(op["xgrid"])
     ops = []
@@ -68,6 +71,10 @@ def generate(seed, tier, opts):
         ops = gen_ops(d, op, op["mugrid"], d.between("nops", 1, 6), nx)
     elif workload == "build":
         ops = gen_ops(d, op, [], d.between("nops", 1, 6), nx)
+    fin_ops = []
+    if workload.startswith("product"):
+        for j in range(d.between("nfin", 1, 3)):
+            fin_ops.append(dict(id=j, op="put", key=dict(scale=round(d.uniform("fin:scale", 2.0, 1e4), 3), nf=d.pick("fin:nf", [3, 4, 5, 6])), val=dict(uid=900 + j, p=14, x=nx, err=d.chance("fin:err", 0.5), special=False)))
     spec = dict(opts.get("faultspec") or {"mode": "sample", "count": 40})
     spec["slice"] = [sl, slices]
     if real:
@@ -83,6 +90,7 @@ def generate(seed, tier, opts):
         theory=th,
         operator=op,
         ops=ops,
+        fin_ops=fin_ops,
         faultspec=spec,
         pairs=int(opts.get("pairs", 0)),
     )
@@ -132,6 +140,31 @@ def session(case, target, trace, user_fault_after=None):
             raise UserError("ekosim injected user error at end of block")
 
     trace.begin_op(-1)
+    outdir = target.parent
+    if wl == "deepcopy":
+        with EKO.read(outdir / "src.tar") as src:
+            trace.begin_op(0)
+            src.deepcopy(target)
+            # the session on the target is over; what follows only releases the
+            # read-only source (faults there are not faults of this session)
+            trace.begin_op(EPILOGUE)
+        return
+    if wl in ("product-inplace", "product-new"):
+        from ekobox.utils import ekos_product
+
+        if wl == "product-inplace":
+            with EKO.edit(target) as ini:
+                with EKO.read(outdir / "fin.tar") as fin:
+                    trace.begin_op(0)
+                    ekos_product(ini, fin)
+                    trace.begin_op(-2)
+        else:
+            with EKO.read(outdir / "ini.tar") as ini:
+                with EKO.read(outdir / "fin.tar") as fin:
+                    trace.begin_op(0)
+                    ekos_product(ini, fin, path=target)
+                    trace.begin_op(EPILOGUE)
+        return
     if wl == "edit":
         with EKO.edit(target) as eko:
             body(eko)
@@ -313,6 +346,8 @@ def enumerate_faults(case, ref, d):
     both = spec.get("mode") == "all"
     for ev in events:
         kind = ev[3]
+        if ev[1] == EPILOGUE:
+            continue
         if both:
             # every applicable fault kind at every site
             allf.append(fs_fault_for(d, ev, "oserror"))
@@ -381,14 +416,14 @@ def enumerate_faults(case, ref, d):
 # the run
 
 
-def _reset(root, pre_bytes):
+def _reset(root, pre_files):
     for sub in ("out", "tmp"):
         p = os.path.join(root, sub)
         shutil.rmtree(p, ignore_errors=True)
         os.makedirs(p)
-    if pre_bytes is not None:
-        with open(os.path.join(root, "out", "result.tar"), "wb") as f:
-            f.write(pre_bytes)
+    for name, data in (pre_files or {}).items():
+        with open(os.path.join(root, "out", name), "wb") as f:
+            f.write(data)
 
 
 def _state(root):
@@ -398,7 +433,7 @@ def _state(root):
 def _leaks(root):
     out = sorted(os.listdir(os.path.join(root, "out")))
     tmp = sorted(os.listdir(os.path.join(root, "tmp")))
-    return [n for n in out if n != "result.tar"], tmp
+    return [n for n in out if n not in ("result.tar", "src.tar", "ini.tar", "fin.tar")], tmp
 
 
 def _describe(st):
@@ -462,16 +497,36 @@ def execute(case):
     sigs = set()
     with Scratch("crash") as root:
         d = Decider(case["seed"], "crash-exec")
-        # --- the pre-existing archive of an edit workload (fault-free)
-        pre_bytes = None
+        # --- pre-existing archives (fault-free sessions under the seams)
+        pre_files = {}
+        accept_after_failure = []
         _reset(root, None)
-        if case["workload"] == "edit":
-            mk = dict(case)
-            mk["workload"] = "solve"
-            r0 = run_session(mk, root, None, ns="pre")
+        wl = case["workload"]
+
+        def make(sub, name):
+            _reset(root, None)
+            r0 = run_session(sub, root, None, ns="pre-" + name)
             if r0["raised"] is not None:
-                return dict(violations=[], trivial=True, refused=repr(r0["raised"]), stats=stats, digest="refused")
-            pre_bytes = open(os.path.join(root, "out", "result.tar"), "rb").read()
+                return repr(r0["raised"])
+            pre_files[name] = open(os.path.join(root, "out", "result.tar"), "rb").read()
+            return None
+
+        if wl in ("edit", "deepcopy", "product-inplace", "product-new"):
+            first = {"edit": "result.tar", "deepcopy": "src.tar", "product-inplace": "result.tar", "product-new": "ini.tar"}[wl]
+            err = make(dict(case, workload="solve"), first)
+            if err is None and wl.startswith("product"):
+                t0 = case["operator"]["mugrid"][0]
+                fin_op = dict(case["operator"])
+                fin_op["init"] = [t0[0], t0[1]]
+                err = make(dict(case, workload="build", operator=fin_op, ops=case["fin_ops"]), "fin.tar")
+            if err is not None:
+                return dict(violations=[], trivial=True, refused=err, stats=stats, digest="refused")
+            if wl == "product-new":
+                # ekos_product(path=...) is two sessions: a deep copy of the initial EKO
+                # (complete archive at the new path), then an edit session on it
+                _reset(root, {"result.tar": pre_files["ini.tar"]})
+                accept_after_failure.append(_state(root))
+        pre_bytes = pre_files
         # --- reference run
         _reset(root, pre_bytes)
         pre = _state(root)
@@ -515,6 +570,8 @@ def execute(case):
             if len(samples) < 3:
                 samples.append(dict(workload=case["workload"], physics=case["physics"], fault=fault, raised=repr(r["raised"])[:120], target_after=post[0], events_before_fault=r["trace"].n, n_ops=len(case["ops"])))
             v, committed = judge_failure(case, fault, r, pre, post, ref_new, stats)
+            if v is not None and v["cls"] == "changed-after-failure" and post in accept_after_failure:
+                v = None
             if v is not None:
                 viol.append(v)
                 continue
